@@ -117,21 +117,26 @@ Print Assumptions c06_without_broadcast_refuted.
    only told about the loss of a link that is still registered at its address
    (regenerated from handleLinkLost). *)
 
-(* if every closed link is reported to the controller, a link whose close
-   callback has run is never reported again, whatever usurped what *)
-Theorem c06_transport_closed_not_reported_when_always_told : forall U me h h' p r,
-  needs_current = false ->
+(* the quic transport reports every closed link to the controller on this tree
+   (regenerated from quic.go handleLinkLost) *)
+Theorem c06_transport_reports_every_loss_on_this_tree : needs_current = false.
+Proof. reflexivity. Qed.
+Print Assumptions c06_transport_reports_every_loss_on_this_tree.
+
+(* hence a link whose close callback has run is never reported again, whatever
+   usurped what at which address, for every transport history *)
+Theorem c06_transport_closed_not_reported : forall U me h h' p r,
   ~ In (Session p) h' ->
   ~ In p (peer_links r (run U me (emitted U needs_current qinit (h ++ Closed p :: h')))).
 Proof.
-  intros U me h h' p r Hnc. rewrite Hnc.
+  intros U me h h' p r. rewrite c06_transport_reports_every_loss_on_this_tree.
   exact (closed_link_not_reported_when_always_told U lost_broadcasts me h h' p r).
 Qed.
-Print Assumptions c06_transport_closed_not_reported_when_always_told.
+Print Assumptions c06_transport_closed_not_reported.
 
-(* if only still-registered links are reported (the code as it is when
-   quic_lost_needs_current = 1): a link usurped at its address by a DIFFERENT
-   peer is closed by the transport and reported by the controller for ever *)
+(* sensitivity: for the code that only reported still-registered links (before
+   /repo c3693f6) a link usurped at its address by a DIFFERENT peer was closed
+   by the transport and reported by the controller for ever *)
 Theorem c06_usurped_by_other_peer_refuted_when_only_current_told :
   let evs := emitted usurp_univ true qinit usurp_history in
   evs = [Est 0%nat; Est 1%nat]
